@@ -9,3 +9,7 @@ claim("C02", HIST,
       "Same exploration as C01 with the converse comparison: every equality (and redundancy) implied by the asserted equations must be reported as soon as union returns; prefix-closed enumeration checks it after every operation of every explored history.",
       "Same trusted base as C01.",
       "DESIGN.md 3.1, 5 C02")
+claim("C08", "bounded-exhaustive enumeration of operation histories on the real e-graph (default and `checks` builds) with an invariant monitor after every history",
+      "All multisets of <=3 (quick) / <=5 (thorough) union/insert operations over the generated alphabets, all orderings and orientations, run in the default build and in the build with the crate's internal assertions; after each history the monitor requires: no panic/abort/hang, EGraph::check() passes, every e-node looks up to the identity invocation of its own class, mentions all class slots, refers only to live classes, find is idempotent, a no-op union changes nothing, extraction of every class and stale handle returns. Worker deaths/hangs are violations.",
+      "Histories are over the Sym driver language; rewriting/extraction histories over the arithmetic language are monitored by C03/C13/C15 which report panics as their own failures.",
+      "DESIGN.md 5 C08")
